@@ -7,6 +7,7 @@ import (
 	"flag"
 	"fmt"
 	"hash/fnv"
+	"io"
 	"os"
 	"path/filepath"
 	"sort"
@@ -17,10 +18,12 @@ import (
 	"github.com/chrislusf/raft"
 	"github.com/chrislusf/seaweedfs/weed/pb/master_pb"
 	"github.com/chrislusf/seaweedfs/weed/sequence"
+	weed_server "github.com/chrislusf/seaweedfs/weed/server"
 	"github.com/chrislusf/seaweedfs/weed/storage/needle"
 	"github.com/chrislusf/seaweedfs/weed/storage/super_block"
 	"github.com/chrislusf/seaweedfs/weed/storage/types"
 	"github.com/chrislusf/seaweedfs/weed/topology"
+	"google.golang.org/grpc"
 	"verifharness/hx"
 )
 
@@ -62,6 +65,74 @@ func growOption() *topology.VolumeGrowOption {
 	return &topology.VolumeGrowOption{Collection: "", ReplicaPlacement: rp, Ttl: needle.EMPTY_TTL, DiskType: types.HardDriveType}
 }
 
+// ---------- the real MasterServer.SendHeartbeat over an in-memory stream ----------
+
+type hbStream struct {
+	grpc.ServerStream // nil: SendHeartbeat only uses Send and Recv
+	in                chan *master_pb.Heartbeat
+	atSend            chan *master_pb.HeartbeatResponse
+	cont              chan struct{}
+}
+
+func (s *hbStream) Send(r *master_pb.HeartbeatResponse) error {
+	s.atSend <- r // parks here until the harness has looked at the master's state
+	<-s.cont
+	return nil
+}
+func (s *hbStream) Recv() (*master_pb.Heartbeat, error) {
+	hb, ok := <-s.in
+	if !ok {
+		return nil, io.EOF
+	}
+	return hb, nil
+}
+
+type hbDriver struct {
+	st    *hbStream
+	done  chan error
+	first bool
+}
+
+func newHbDriver(topo *topology.Topology) *hbDriver {
+	topo.RaftServer = &fakeRaft{topo: topo, parked: make(chan chan bool)} // Topo.Leader() at the end of every heartbeat
+	ms := weed_server.VerifC13NewMasterServer(topo, 32)
+	d := &hbDriver{st: &hbStream{in: make(chan *master_pb.Heartbeat), atSend: make(chan *master_pb.HeartbeatResponse), cont: make(chan struct{})},
+		done: make(chan error, 1), first: true}
+	go func() { d.done <- ms.SendHeartbeat(d.st) }()
+	return d
+}
+
+// one heartbeat with MaxFileKey = k; the first one also carries volume 1.
+// atFirstSend is called while SendHeartbeat is parked in its first Send (the
+// volume size limit answer), which the code issues after Sequence.SetMax and
+// before the volumes of the heartbeat are registered.
+func (d *hbDriver) beat(k uint64, atFirstSend func()) {
+	hb := &master_pb.Heartbeat{Ip: "127.0.0.1", Port: 34534, PublicUrl: "127.0.0.1", MaxFileKey: k, MaxVolumeCounts: map[string]uint32{"": 1000}}
+	if d.first {
+		hb.Volumes = []*master_pb.VolumeInformationMessage{{Id: 1, Size: 100, Collection: "", ReplicaPlacement: 0, Version: uint32(needle.CurrentVersion), Ttl: 0}}
+	}
+	d.st.in <- hb
+	if d.first {
+		r := <-d.st.atSend
+		if r.VolumeSizeLimit != 32*1024*1024 {
+			panic("first heartbeat answer is not the volume size limit")
+		}
+		atFirstSend()
+		d.st.cont <- struct{}{}
+		d.first = false
+	}
+	r := <-d.st.atSend
+	if r.Leader != "fake" {
+		panic("heartbeat answer without the leader")
+	}
+	d.st.cont <- struct{}{}
+}
+
+func (d *hbDriver) close() {
+	close(d.st.in)
+	<-d.done
+}
+
 // ---------- 1. memory sequencer ----------
 
 const maxU64 = ^uint64(0)
@@ -70,13 +141,14 @@ func genMem(r *hx.Rng, out *hx.Out, viaAssign bool, boundary bool) *caseOut {
 	seq := sequence.NewMemorySequencer()
 	var topo *topology.Topology
 	var opt *topology.VolumeGrowOption
+	var hb *hbDriver
+	// observed while the first heartbeat is between Sequence.SetMax and the
+	// registration of its volumes: the counter, and whether volume 1 is known
+	firstCounter, firstRegistered := uint64(0), uint64(0)
 	if viaAssign {
-		var dn *topology.DataNode
-		topo, dn = newTopo(seq)
-		// one writable volume, registered the way a heartbeat does
-		topo.SyncDataNodeRegistration([]*master_pb.VolumeInformationMessage{{
-			Id: 1, Size: 100, Collection: "", ReplicaPlacement: 0, Version: uint32(needle.CurrentVersion), Ttl: 0,
-		}}, dn)
+		topo = topology.NewTopology("weedfs", seq, 32*1024, 5, false)
+		hb = newHbDriver(topo)
+		defer hb.close()
 		opt = growOption()
 	}
 	c := &caseOut{kind: "mem"}
@@ -90,7 +162,7 @@ func genMem(r *hx.Rng, out *hx.Out, viaAssign bool, boundary bool) *caseOut {
 	n := r.Range(3, 30)
 	for j := 0; j < n; j++ {
 		cur := seq.VerifCounter()
-		if r.Chance(2, 3) {
+		if j > 0 && r.Chance(2, 3) { // the first step is a SetMax (with assign: the heartbeat that registers volume 1)
 			var count uint64
 			switch k := r.Intn(12); {
 			case k < 5:
@@ -159,9 +231,17 @@ func genMem(r *hx.Rng, out *hx.Out, viaAssign bool, boundary bool) *caseOut {
 				k = r.PickU64([]uint64{maxU64, maxU64 - 1, maxU64 - 5, 1 << 63})
 			}
 			if viaAssign {
-				topo.Sequence.SetMax(k) // what SendHeartbeat does with heartbeat.MaxFileKey
+				hb.beat(k, func() {
+					firstCounter = seq.VerifCounter()
+					if len(topo.Lookup("", needle.VolumeId(1))) > 0 {
+						firstRegistered = 1
+					}
+				})
 			} else {
 				seq.SetMax(k)
+			}
+			if j == 0 && !viaAssign {
+				firstCounter = seq.VerifCounter()
 			}
 			ops = append(ops, "MSetMax "+hx.N(k))
 			c.outs = append(c.outs, evMax(0, k))
@@ -170,7 +250,74 @@ func genMem(r *hx.Rng, out *hx.Out, viaAssign bool, boundary bool) *caseOut {
 		}
 	}
 	c.inp = "(IMem " + hx.List(ops) + ")"
-	c.fin = []uint64{seq.VerifCounter()}
+	c.fin = []uint64{seq.VerifCounter(), firstCounter, firstRegistered}
+	return c
+}
+
+// leader change: master 0 (old leader) runs ops1; master 1 starts with a fresh
+// sequencer, its first step is the heartbeat SetMax(k), then it runs ops2.
+// k is a key "written on the volume server": any key handed out by master 0
+// (the largest one = every assigned key was written).
+func genMemFailover(r *hx.Rng, out *hx.Out, witness bool) *caseOut {
+	c := &caseOut{kind: "mem-failover"}
+	old, neu := sequence.NewMemorySequencer(), sequence.NewMemorySequencer()
+	var ops1, ops2 []string
+	hi := uint64(0)
+	n1, n2 := r.Range(1, 8), r.Range(1, 8)
+	if witness {
+		c.kind = "mem-failover-witness"
+		n1, n2 = 1, 1
+	}
+	for j := 0; j < n1; j++ {
+		if witness || r.Chance(3, 4) {
+			count := uint64(r.PickInt([]int{1, 1, 2, 3, 5, 40, 0}))
+			if witness {
+				count = 5
+			}
+			got := old.NextFileId(count)
+			if count > 0 {
+				hi = got + count - 1
+				c.nrets++
+			}
+			ops1 = append(ops1, "MNext "+hx.N(count))
+			c.outs = append(c.outs, evRet(0, got, count))
+			c.canon = append(c.canon, "N"+strconv.FormatUint(count, 10))
+		} else {
+			k := uint64(r.Intn(int(hi) + 20))
+			old.SetMax(k)
+			ops1 = append(ops1, "MSetMax "+hx.N(k))
+			c.outs = append(c.outs, evMax(0, k))
+			c.canon = append(c.canon, "M"+strconv.FormatUint(k, 10))
+		}
+	}
+	k := hi
+	switch {
+	case witness:
+		k = 2
+	case hi > 0 && r.Chance(1, 2):
+		k = uint64(r.Intn(int(hi))) + 1 // some assigned keys are not written yet
+	case r.Chance(1, 4):
+		k = hi + uint64(r.Range(0, 9))
+	}
+	neu.SetMax(k)
+	c.outs = append(c.outs, evMax(1, k))
+	c.canon = append(c.canon, "F"+strconv.FormatUint(k, 10))
+	for j := 0; j < n2; j++ {
+		count := uint64(r.PickInt([]int{1, 1, 2, 3, 7, 0}))
+		if witness {
+			count = 1
+		}
+		got := neu.NextFileId(count)
+		if count > 0 {
+			c.nrets++
+		}
+		ops2 = append(ops2, "MNext "+hx.N(count))
+		c.outs = append(c.outs, evRet(1, got, count))
+		c.canon = append(c.canon, "N"+strconv.FormatUint(count, 10))
+	}
+	out.Count("mem:failover", 1)
+	c.inp = "(IMemFo " + hx.List(ops1) + " " + hx.N(k) + " " + hx.List(ops2) + ")"
+	c.fin = []uint64{old.VerifCounter(), neu.VerifCounter()}
 	return c
 }
 
@@ -293,6 +440,9 @@ func (cl *ecluster) boot(i int) {
 
 func (cl *ecluster) next(i int, count uint64) {
 	m := cl.ms[i]
+	if !cl.settle(i) {
+		return // the call is dropped from the schedule
+	}
 	m.opKind, m.arg = opNext, count
 	m.done = make(chan opResult, 1)
 	seq, done := m.seq, m.done
@@ -302,11 +452,24 @@ func (cl *ecluster) next(i int, count uint64) {
 
 func (cl *ecluster) setmax(i int, k uint64) {
 	m := cl.ms[i]
+	if !cl.settle(i) {
+		return // the call is dropped from the schedule
+	}
 	m.opKind, m.arg = opSetMax, k
 	m.done = make(chan opResult, 1)
 	seq, done := m.seq, m.done
 	go func() { seq.SetMax(k); done <- opResult{} }()
 	cl.record(i, "ASetMax "+hx.N(k), "M"+strconv.FormatUint(k, 10), cl.wait(m))
+}
+
+// a fixed witness schedule may find the master still inside a KeysAPI call when
+// the tree under test behaves differently: finish that call first (the ticks are
+// recorded as steps), and boot a master that has no sequencer
+func (cl *ecluster) settle(i int) bool {
+	for n := 0; cl.ms[i].busy && n < 50; n++ {
+		cl.tick(i, dOk)
+	}
+	return !cl.ms[i].busy && cl.ms[i].seq != nil
 }
 
 func (cl *ecluster) tick(i int, d directive) {
@@ -342,9 +505,9 @@ func (cl *ecluster) finish(kind string) *caseOut {
 	c := &caseOut{kind: kind, outs: cl.outs, canon: cl.canon, nrets: cl.nrets}
 	c.inp = "(IEtcd " + hx.Nat(len(cl.ms)) + " " + hx.List(cl.steps) + ")"
 	if v, ok := cl.storeVal(); ok {
-		c.fin = append(c.fin, v+1)
+		c.fin = append(c.fin, 1, v) // the etcd key exists, its value
 	} else {
-		c.fin = append(c.fin, 0)
+		c.fin = append(c.fin, 0, 0)
 	}
 	for _, m := range cl.ms {
 		m.refresh()
@@ -369,8 +532,18 @@ func (cl *ecluster) finish(kind string) *caseOut {
 
 var etcdCounts = []uint64{1, 1, 1, 2, 3, 7, 100, 250, 498, 499, 500, 501, 700, 0}
 
-// mode 0: no SetMax, no faults; 1: SetMax, no faults; 2: everything
+// counts near 2^64 (the count of an assign request is an unchecked uint64)
+func bigCount(r *hx.Rng, cur uint64) uint64 {
+	return r.PickU64([]uint64{maxU64, maxU64 - 1, maxU64 - cur, maxU64 - cur + 1, -cur, 1 << 63, (1 << 63) + 1,
+		maxU64 - 499, maxU64 - 500, maxU64 - 501, maxU64 - 998, maxU64 - 1000 - cur})
+}
+
+// mode 0: no SetMax, no faults; 1: SetMax, no faults; 2: everything; 3: as 1 plus counts near 2^64
 func genEtcd(r *hx.Rng, out *hx.Out, mode int) *caseOut {
+	wrap := mode == 3
+	if wrap {
+		mode = 1
+	}
 	n := r.PickInt([]int{1, 2, 2, 2, 3})
 	cl := newCluster(n)
 	nsteps := r.Range(12, 70)
@@ -402,7 +575,13 @@ func genEtcd(r *hx.Rng, out *hx.Out, mode int) *caseOut {
 			x := r.Intn(100)
 			switch {
 			case x < 62 || (mode == 0 && x < 94):
-				cl.next(i, r.PickU64(etcdCounts))
+				count := r.PickU64(etcdCounts)
+				if wrap && r.Chance(1, 6) {
+					cur, _ := m.seq.VerifState()
+					count = bigCount(r, cur)
+					out.Count("etcd:next-huge", 1)
+				}
+				cl.next(i, count)
 				out.Count("etcd:next", 1)
 			case x < 94:
 				cur, max := m.seq.VerifState()
@@ -418,6 +597,9 @@ func genEtcd(r *hx.Rng, out *hx.Out, mode int) *caseOut {
 				out.Count("etcd:restart", 1)
 			}
 		}
+	}
+	if wrap {
+		return cl.finish("etcd-wrap")
 	}
 	return cl.finish("etcd-mode" + strconv.Itoa(mode))
 }
@@ -463,6 +645,27 @@ func witErr() *caseOut {
 	return cl.finish("etcd-witness-error")
 }
 
+// finding 3: NextFileId(1)=1, NextFileId(2^64-1)=2, NextFileId(1)=1 (proof/SeqProofs.v wit_wrap)
+func witWrap() *caseOut {
+	cl := newCluster(1)
+	cl.bootFully(0)
+	cl.next(0, 1)
+	cl.run(0)
+	cl.next(0, maxU64)
+	cl.next(0, 1)
+	return cl.finish("etcd-witness-wrap")
+}
+
+// finding 3, second form: count = 2^64-500 makes reqSteps 0: key 0 without any etcd call
+func witWrapZeroSteps() *caseOut {
+	cl := newCluster(1)
+	cl.bootFully(0)
+	cl.next(0, maxU64-499)
+	cl.next(0, 3)
+	cl.run(0)
+	return cl.finish("etcd-witness-wrap-zero-steps")
+}
+
 // ---------- 3. snowflake ----------
 
 func nodeID(s string) uint64 {
@@ -496,12 +699,35 @@ func sfCase(kind string, names []string, calls []sfCall) *caseOut {
 	return c
 }
 
+// the first address 10.0.a.b:9333 (other than `like`) with the same 10-bit node id
+func collidingName(like string) string {
+	for a := 0; a < 256; a++ {
+		for b := 1; b < 255; b++ {
+			s := fmt.Sprintf("10.0.%d.%d:9333", a, b)
+			if s != like && nodeID(s) == nodeID(like) {
+				return s
+			}
+		}
+	}
+	panic("no colliding address")
+}
+
+// mode 0: one node, count<=1; 1: two nodes; 2: one node, count>1; 3: two nodes
+// whose addresses have the same 10-bit hash (finding 5); 4: three nodes, two of them colliding
 func genSnow(r *hx.Rng, out *hx.Out, mode int) *caseOut {
 	// two node names with different 10-bit hashes
 	names := []string{"10.0.0.1:9333", "10.0.0.2:9333"}
 	nn := 1
 	if mode == 1 {
 		nn = 2
+	}
+	if mode == 3 {
+		names = []string{"10.0.0.1:9333", collidingName("10.0.0.1:9333")}
+		nn = 2
+	}
+	if mode == 4 {
+		names = []string{"10.0.0.1:9333", "10.0.0.2:9333", collidingName("10.0.0.1:9333")}
+		nn = 3
 	}
 	var seqs []*sequence.SnowflakeSequencer
 	for i := 0; i < nn; i++ {
@@ -514,6 +740,9 @@ func genSnow(r *hx.Rng, out *hx.Out, mode int) *caseOut {
 	for j := range plan {
 		plan[j].node = r.Intn(nn)
 		switch mode {
+		case 3, 4: // alternate strictly: equal ids need the same millisecond and step
+			plan[j].node = j % nn
+			plan[j].count = 1
 		case 2:
 			plan[j].count = uint64(r.PickInt([]int{1, 2, 3, 3, 5, 4096}))
 		default:
@@ -537,6 +766,22 @@ func witSnow() *caseOut {
 		calls[j] = sfCall{0, 3, s.NextFileId(3)}
 	}
 	return sfCase("snow-witness-count", []string{"10.0.0.1:9333"}, calls)
+}
+
+// finding 5: two masters whose addresses hash to the same 10-bit node id
+func witSnowCollision() *caseOut {
+	names := []string{"10.0.0.1:9333", collidingName("10.0.0.1:9333")}
+	var seqs []*sequence.SnowflakeSequencer
+	for _, nm := range names {
+		s, err := sequence.NewSnowflakeSequencer(nm)
+		hx.Must(err)
+		seqs = append(seqs, s)
+	}
+	calls := make([]sfCall, 64)
+	for j := range calls {
+		calls[j] = sfCall{j % 2, 1, seqs[j%2].NextFileId(1)}
+	}
+	return sfCase("snow-witness-collision", names, calls)
 }
 
 // a long burst: try to observe the 12-bit step roll-over inside one millisecond
@@ -588,6 +833,7 @@ type fakeRaft struct {
 
 func (f *fakeRaft) Context() interface{} { return f.topo }
 func (f *fakeRaft) Name() string         { return "fake" }
+func (f *fakeRaft) Leader() string       { return "fake" }
 func (f *fakeRaft) Do(command raft.Command) (interface{}, error) {
 	ch := make(chan bool)
 	f.parked <- ch
@@ -700,7 +946,7 @@ func stressCase(kind int, rs []rng, fin []uint64) *caseOut {
 		}
 		return rs[i].c < rs[j].c
 	})
-	c := &caseOut{kind: "stress-" + []string{"mem", "mem-setmax", "etcd"}[kind], fin: fin}
+	c := &caseOut{kind: "stress-" + []string{"mem", "mem-setmax", "etcd", "vol"}[kind], fin: fin}
 	total := uint64(0)
 	for _, x := range rs {
 		c.outs = append(c.outs, evRet(x.m, x.s, x.c))
@@ -713,7 +959,66 @@ func stressCase(kind int, rs []rng, fin []uint64) *caseOut {
 	return c
 }
 
+// a raft server that applies at once; like the raft library it applies one command at a time
+type directRaft struct {
+	raft.Server
+	topo *topology.Topology
+	mu   sync.Mutex
+}
+
+func (f *directRaft) Context() interface{} { return f.topo }
+func (f *directRaft) Name() string         { return "fake" }
+func (f *directRaft) Do(command raft.Command) (interface{}, error) {
+	f.mu.Lock()
+	defer f.mu.Unlock()
+	return command.(interface {
+		Apply(raft.Server) (interface{}, error)
+	}).Apply(f)
+}
+
+// volume ids: ONE grower (the growth lock is an assumption) calls NextVolumeId
+// while two volume servers' heartbeat streams register volumes concurrently
+func genStressVol(r *hx.Rng, out *hx.Out) *caseOut {
+	topo := topology.NewTopology("weedfs", sequence.NewMemorySequencer(), 32*1024, 5, false)
+	topo.RaftServer = &directRaft{topo: topo}
+	rack := topo.GetOrCreateDataCenter("dc1").GetOrCreateRack("rack1")
+	per := r.Range(10, 40)
+	var wg sync.WaitGroup
+	for t := 0; t < 1; t++ { // one stream: two would also race on the disk usage counters, which is not this property
+		dn := rack.GetOrCreateDataNode("127.0.0.1", 34534+t, "127.0.0.1", map[string]uint32{"": 100000})
+		vids := make([]uint32, per)
+		for j := range vids {
+			vids[j] = uint32(r.Range(1, 60))
+		}
+		wg.Add(1)
+		go func() {
+			defer wg.Done()
+			for _, v := range vids {
+				topo.IncrementalSyncDataNodeRegistration([]*master_pb.VolumeShortInformationMessage{{Id: v, Collection: "", ReplicaPlacement: 0, Version: uint32(needle.CurrentVersion), Ttl: 0}}, nil, dn)
+			}
+		}()
+	}
+	var rs []rng
+	wg.Add(1)
+	go func() {
+		defer wg.Done()
+		for j := 0; j < per; j++ {
+			vid, err := topo.NextVolumeId()
+			hx.Must(err)
+			rs = append(rs, rng{0, uint64(vid), 1})
+		}
+	}()
+	wg.Wait()
+	c := stressCase(3, rs, nil)
+	c.canon = []string{fmt.Sprintf("stress3-%d-%d", per, r.Next())}
+	out.Count("stress:vol-calls", 3*per)
+	return c
+}
+
 func genStress(r *hx.Rng, out *hx.Out, kind int) *caseOut {
+	if kind == 3 {
+		return genStressVol(r, out)
+	}
 	g, per := r.Range(2, 6), r.Range(10, 40)
 	var mu sync.Mutex
 	var rs []rng
@@ -783,7 +1088,7 @@ func genStress(r *hx.Rng, out *hx.Out, kind int) *caseOut {
 func main() {
 	out := hx.Flags("C13", 300)
 	flag.Set("logtostderr", "true")
-	out.Rule = "cases 0-4 are fixed: the etcd SetMax witnesses (finding 0, two forms), 64 back-to-back snowflake NextFileId(3) (finding 1), the etcd error witness (finding 2), a 60000-call snowflake burst (12-bit roll-over window when observed); then by case number mod 20: memory sequencer op lists (direct, through Topology.PickForWrite + Sequence.SetMax, and near 2^64), 1-3 etcd sequencers on one fake store with every KeysAPI call scheduled separately (modes: plain / SetMax / SetMax+faults+restarts), snowflake bursts on 1-2 nodes (count<=1 / count>1), Topology.NextVolumeId over a fake raft with heartbeats (locked / unlocked / near 2^32); thorough tier adds goroutine stress on the memory and etcd sequencers; non-trivial = at least two non-empty ranges (ids) handed out; distinct = canonical step list"
+	out.Rule = "cases 0-8 are fixed: the etcd SetMax witnesses (finding 0, two forms), 64 back-to-back snowflake NextFileId(3) (finding 1), the etcd error witness (finding 2), a 60000-call snowflake burst (12-bit roll-over window when observed), the etcd uint64 wrap witnesses (finding 3: count 2^64-1; count 2^64-500), the memory leader-change witness (finding 4), two snowflake nodes with colliding address hashes (finding 5); then by case number mod 20: memory sequencer op lists (direct; through Topology.PickForWrite with every SetMax delivered by the real MasterServer.SendHeartbeat over an in-memory stream, observing the counter between SetMax and the volume registration; near 2^64; leader change to a fresh sequencer whose first heartbeat reports a written key), etcd with counts near 2^64, 1-3 etcd sequencers on one fake store with every KeysAPI call scheduled separately (modes: plain / SetMax / SetMax+faults+restarts), snowflake bursts on 1-2 nodes (count<=1 / count>1), Topology.NextVolumeId over a fake raft with heartbeats (locked / unlocked / near 2^32); thorough tier adds goroutine stress on the memory and etcd sequencers; non-trivial = at least two non-empty ranges (ids) handed out; distinct = canonical step list"
 	root := hx.NewRng(out.Seed)
 	for i := 0; i < out.N; i++ {
 		r := root.Fork()
@@ -799,26 +1104,40 @@ func main() {
 			c = witErr()
 		case i == 4:
 			c = snowRollover(out)
+		case i == 5:
+			c = witWrap()
+		case i == 6:
+			c = witWrapZeroSteps()
+		case i == 7:
+			c = genMemFailover(r, out, true)
+		case i == 8:
+			c = witSnowCollision()
+		case out.Variant == "race" && i%3 == 2: // race detector stage: real goroutines
+			c = genStress(r, out, (i/3)%4)
 		case out.Tier == "thorough" && i%10 == 9:
 			c = genStress(r, out, (i/10)%3)
 		default:
 			switch k := i % 20; {
-			case k < 2:
+			case k < 1:
 				c = genMem(r, out, false, false)
+			case k < 2:
+				c = genMemFailover(r, out, false)
 			case k < 4:
 				c = genMem(r, out, true, false)
 			case k < 5:
-				c = genMem(r, out, k%2 == 0, true)
+				c = genMem(r, out, (i/20)%2 == 0, true)
 			case k < 7:
 				c = genEtcd(r, out, 0)
-			case k < 10:
+			case k < 9:
 				c = genEtcd(r, out, 1)
+			case k < 10:
+				c = genEtcd(r, out, 3)
 			case k < 13:
 				c = genEtcd(r, out, 2)
 			case k < 14:
 				c = genSnow(r, out, 0)
 			case k < 15:
-				c = genSnow(r, out, 1)
+				c = genSnow(r, out, []int{1, 3, 1, 4}[(i/20)%4])
 			case k < 16:
 				c = genSnow(r, out, 2)
 			case k < 18:
